@@ -131,7 +131,7 @@ def gen(rng, tier, i):
         c = 1 if (two and rng.random() < 0.3) else 0
         j = cmd(text, c)
         if cls == 'hooks' and rng.random() < 0.12:
-            p.cycles[j].insert(0, fault(rng.randint(0, 250), 'error'))
+            p.cycles[j].insert(0, fault(rng.randint(0, 250), rng.choice(('error', 'error', 'stackroom:%d' % rng.choice((0, 1, 2, 3, 5, 8))))) )
         if rng.random() < 0.08: p.cycle(tick())
     cmd('wdump')
     p.idle(1)
